@@ -726,6 +726,76 @@ func (m *machine) step() {
 			}
 		}
 		m.do(w.UpdateAllocation(p))
+	case "missThenPass":
+		// several challenges in a row on allocations that hold data: early ones are failed, left unanswered or answered
+		// late, later ones are passed - the contract then settles the missed ones (penalty path) while paying the pass
+		if len(m.openAllocs()) == 0 {
+			return
+		}
+		k := rapid.IntRange(2, 4).Draw(t, "challenges")
+		for i := 0; i < k; i++ {
+			m.h.NextBlock(int64(rapid.IntRange(1, 3).Draw(t, "rounds")), int64(rapid.SampledFrom([]int{2, 30, 600}).Draw(t, "seconds")))
+			gtxn := w.GenerateChallenge()
+			cid := w.ChallengeIDOf(gtxn)
+			if o := m.do(gtxn); !ok(o) {
+				continue
+			}
+			ch, found, _ := w.View().Challenge(cid)
+			if !found {
+				continue
+			}
+			kind := rapid.SampledFrom([]string{"pass", "none", "fail", "pass", "mixed", "late-pass"}).Draw(t, "response")
+			if i == k-1 && rapid.IntRange(0, 3).Draw(t, "lastPasses") != 0 {
+				kind = "pass"
+			}
+			switch kind {
+			case "fail":
+				m.do(w.FailingResponse(ch))
+			case "mixed":
+				m.do(w.MixedResponse(ch, rapid.IntRange(0, len(ch.ValidatorIDs)).Draw(t, "successes")))
+			case "late-pass":
+				m.h.NextBlock(int64(rapid.SampledFrom([]int{50, 500, 2000}).Draw(t, "lateRounds")), 30)
+				m.do(w.PassingResponse(ch))
+			case "pass":
+				m.do(w.PassingResponse(ch))
+			}
+		}
+	case "repriceExtend":
+		// blobbers of an allocation that holds data change their write prices in opposite directions, then the owner
+		// extends the allocation (the challenge pool is re-priced per blobber)
+		a := m.pickAlloc(true)
+		if a == nil {
+			return
+		}
+		al, found, _ := w.View().Allocation(a.id)
+		if !found {
+			return
+		}
+		for _, ba := range al.Blobbers {
+			b := w.Blobber(ba.BlobberID)
+			if b == nil {
+				continue
+			}
+			wp := currency.Coin(rapid.SampledFrom([]uint64{zcn / 5, zcn / 20, zcn / 10, zcn / 4, zcn / 40}).Draw(t, "writePrice"))
+			if rapid.IntRange(0, 3).Draw(t, "skip") == 3 {
+				continue
+			}
+			from := b.Delegate
+			if bl, ok2, _ := w.View().Blobber(b.ID()); ok2 && bl.DelegateWallet != from.ID {
+				if cur := w.Wallet(bl.DelegateWallet); cur != nil {
+					from = cur
+				}
+			}
+			m.cur = curOp{op: op, provider: b, from: from}
+			m.do(w.UpdateBlobberSettings(from, b, simstorage.BlobberUpdate{WritePrice: &wp}))
+		}
+		if rapid.Bool().Draw(t, "timePasses") {
+			m.h.NextBlock(int64(rapid.IntRange(1, 30).Draw(t, "rounds")), int64(rapid.SampledFrom([]int{60, 86400, 10 * 86400}).Draw(t, "seconds")))
+			_ = m.w.KeepAlive()
+		}
+		p := simstorage.UpdateParams{From: a.owner, AllocID: a.id, Extend: true, Lock: currency.Coin(rapid.SampledFrom([]uint64{50 * zcn, 0, zcn}).Draw(t, "lock"))}
+		m.cur = curOp{op: op, alloc: a, from: a.owner, wasOpen: a.open}
+		m.do(w.UpdateAllocation(p))
 	case "blockRewards2":
 		// move to the next round at which the contract pays block rewards, then trigger them
 		period := int64(30)
